@@ -413,9 +413,16 @@ func (h *panicHook) Fire(e *logrus.Entry) error {
 	}
 	// the worker's own account of a failed attempt ("err <error>"): on the wire path anything that
 	// is neither a scripted whole-call error nor the worker's per-record summary is plumbing
+	// (a POSITIVE list of plumbing failures: anything else the worker says about an attempt - also an
+	// error it has mangled - is behaviour of the code under test and stays in the case)
 	if h.rs.wire && strings.HasPrefix(e.Message, "err ") &&
 		!strings.Contains(e.Message, "scripted") && !strings.Contains(e.Message, "records failed to be put to Kinesis") {
-		h.rs.noteInfra("the worker saw an unscripted error: " + strings.SplitN(e.Message, "\n", 2)[0])
+		for _, plumbing := range []string{"RequestError", "SerializationError", "connection refused", "connection reset", "dial tcp", "EOF", "NoCredentialProviders", "i/o timeout"} {
+			if strings.Contains(e.Message, plumbing) {
+				h.rs.noteInfra("the worker saw an unscripted error: " + strings.SplitN(e.Message, "\n", 2)[0])
+				break
+			}
+		}
 	}
 	return nil
 }
